@@ -30,6 +30,7 @@ def plan(tier, seed):
         pool.batches("gen", 700 if q else 12000, 10)
         + pool.batches("skel", 600 if q else nsk, 20)
         + pool.batches("echo", 250 if q else 4000, 10)
+        + pool.batches("tail", 100 if q else 2000, 10)
         + pool.batches("pressure", 150 if q else 2500, 10)
         + pool.batches("layout", 150 if q else 2500, 10)
         + pool.batches("corpus", len(workload.corpus()), 2)
@@ -63,6 +64,8 @@ def gen_case(task, i):
         return dict(src=sk[0], vectors=_vectors(r, 3), env_seeds=envs + [f"{i}:2", f"{i}:3"], stream=st, info=sk[1])
     if st == "echo":
         src = gen_shapes.echo_program(r)
+    elif st == "tail":
+        src = gen_shapes.tail_program(r)
     elif st == "pressure":
         src = gen_shapes.pressure_program(r)[0]
     elif st == "layout":
